@@ -208,6 +208,10 @@ func (k *c12run) jw(a, b string, boost c12rat, prefix int, tie bool) {
 		c.Tie("jarof "+hexs(a)+" "+hexs(b), c05f64(j)) // the float64 value, bit for bit
 		c.Count("jarof")
 		c.Tie(fmt.Sprintf("jw %s %s %s %d", hexs(a), hexs(b), boost, prefix), c12fl(w))
+		if boost.n >= 0 && boost.d > 0 {
+			c.Tie(fmt.Sprintf("jwf %s %s %s %d", hexs(a), hexs(b), boost, prefix), c05f64(w)) // bit for bit
+			c.Count("jwf")
+		}
 	}
 }
 
@@ -253,6 +257,10 @@ func (k *c12run) strsim(a, b string, boost c12rat, prefix int) {
 	}
 	c.Eval()
 	c.Tie(fmt.Sprintf("strsim %s %s %s %d", hexs(a), hexs(b), boost, prefix), c12fl(s))
+	if boost.n >= 0 && boost.d > 0 {
+		c.Tie(fmt.Sprintf("strsimf %s %s %s %d", hexs(a), hexs(b), boost, prefix), c05f64(s)) // bit for bit
+		c.Count("strsimf")
+	}
 }
 
 func c12words(alpha string, maxLen int) []string {
